@@ -21,8 +21,9 @@
     [{q | valid_b (code_sem fb) q = true}] (C01_sound / C02_complete and
     f1_accept_sound / f1_accept_complete).  [C07_sat_eq_random_frag2]: the same
     with weighted crossed levels, crossing weights, further crossings,
-    implied factors, within-trial derived factors in the sampled crossing and
-    sustained further crossings ([frag2]; the right side then reads [cand_seq], the candidate with the
+    implied factors, within-trial derived factors of [act_design] (in the
+    sampled crossing or filled in after the draw) and sustained further
+    crossings ([frag2]; the right side then reads [cand_seq], the candidate with the
     implied rows added).
     Missing for the full statement:
     transition / window factors and preambles on the
